@@ -8,12 +8,12 @@ n = len(ms); caught0 = sum(1 for m in ms if m.get("first_result", "").startswith
 out = ["### 11.5 Independently seeded property-breaking changes (`seeded/<name>/`)", "",
        f"{n} changes written by fresh sub-agents that saw only the property text and their own worktree (wave 1: two per claimed",
        "property; wave 2: concurrency defects, crash-point / history defects, hidden state; wave 3: numeric range / encoding /",
-       "configuration corners; wave 4 and wave 5: one more per property each, asked for a code site and trigger unlike all earlier ones), each confirmed here: the patch applies",
+       "configuration corners; waves 4, 5 and 6: one more per property each, asked for a code site and trigger unlike all earlier ones), each confirmed here: the patch applies",
        "to /repo HEAD, the pinned baseline still passes 73/73, the agent's demo flips from `PROPERTY HOLDS` to `PROPERTY VIOLATED`,",
        "and `VERIF_REPO=<worktree> ./check <ID> --tier quick` is run (`tools/seed_verify.py`).",
        f"{caught0} of the {n} were caught by the checks as they were when the change arrived; every miss led to a strengthening of the",
-       f"check (last column), except the two documented ones (C19w3_1: whitespace characters in fields; C20w5_1: scan number of a",
-       f"multi-scan query is not defined by the statement). Now {det} of {n} are reported by the quick tier.", "",
+       f"check (last column); one is documented as not claimed (C20w5_1: scan number of a multi-scan query is not defined by the",
+       f"statement; C19w3_1, long a documented miss, is caught since the `ws` family of C19). Now {det} of {n} are reported by the quick tier.", "",
        "| change | what it needs to manifest | caught by (quick tier): first signatures | first result |", "|---|---|---|---|"]
 for m in ms:
     d = "; ".join(f"{c}: {', '.join(v['signatures'][:2])}" for c, v in m.get("detected_by", {}).items() if v["rc"] == 1) or "NOT DETECTED"
